@@ -157,26 +157,84 @@ def tofwerk_stamps(rng, n, tz):
     return out, ["plain-stamps"]
 
 
+def pad_style(rng, feats):
+    """index -> digits: plain, one zero-padded width for the directory, or a width chosen per file ("009" next to "10")"""
+    k = rng.random()
+    if k < 0.55:
+        return str
+    if k < 0.75:
+        feats.append("zero-padded")
+        return lambda i: f"{i:04d}"
+    feats.append("mixed-padding")
+    return lambda i: "0" * rng.choice([0, 0, 1, 2, 3]) + str(i)
+
+
+SAMPLES = ["test_icap", "s", "sample1", "x2y", "", "run_ldr", "A_B", "s0", "r7_3", "s1", "s2", "S10", "b", "_", "9", "a_ldr_1"]
+
+
+def ldr_samples(rng, n, feats):
+    """the sample name of each of the n files: one sample, or (n >= 2) the lines of two samples in one directory"""
+    if n >= 2 and rng.random() < 0.3:
+        a, b = rng.sample(SAMPLES, 2)
+        while a.lower() == b.lower():
+            a, b = rng.sample(SAMPLES, 2)
+        feats.append("two-samples")
+        own = [a, b] + [rng.choice([a, b]) for _ in range(n - 2)]
+        rng.shuffle(own)
+    else:
+        own = [rng.choice(SAMPLES)] * n
+    if any(ch.isdigit() for s in own for ch in s):
+        feats.append("prefix-digits")
+    if rng.random() < 0.15 and any(s.lower() != s.upper() for s in own):  # one sample written in several letter cases
+        own = [case_mix(rng, s) if rng.random() < 0.6 else s for s in own]
+        feats.append("sample-case-mix")
+    return own
+
+
 def line_names(rng, vendor, n, tz):
     feats = []
     if vendor in ("nu", "ldr"):
         idx = indices(rng, n)
-        pad = rng.random() < 0.25
-        fmt = (lambda i: f"{i:04d}") if pad else str
-        if pad:
-            feats.append("zero-padded")
-        if sorted(idx) != sorted(idx, key=fmt):
+        fmt = pad_style(rng, feats)
+        digits = [fmt(i) for i in idx]
+        if sorted(range(n), key=lambda k: idx[k]) != sorted(range(n), key=lambda k: digits[k]):
             feats.append("lex!=num")
         if vendor == "nu":
-            names = [case_mix(rng, "line_") + fmt(i) + case_mix(rng, ".csv") for i in idx]
+            names = [case_mix(rng, "line_") + d + case_mix(rng, ".csv") for d in digits]
         else:
-            prefix = rng.choice(["test_icap", "s", "sample1", "x2y", "", "run_ldr", "A_B", "s0", "r7_3"])
-            if any(ch.isdigit() for ch in prefix):
-                feats.append("prefix-digits")
-            names = [prefix + case_mix(rng, "_ldr_") + fmt(i) + case_mix(rng, ".csv") for i in idx]
+            own = ldr_samples(rng, n, feats)
+            if "two-samples" in feats and rng.random() < 0.5:  # the same indices in both samples
+                by = {}
+                for k, s in enumerate(own):
+                    by.setdefault(s.lower(), []).append(k)
+                pool = indices(rng, n)
+                for ks in by.values():
+                    for k, i in zip(ks, pool):
+                        idx[k], digits[k] = i, fmt(i)
+            names = [s + case_mix(rng, "_ldr_") + d + case_mix(rng, ".csv") for s, d in zip(own, digits)]
+            if len({nm.lower() for nm in names}) < n:  # never two files that differ in letter case only
+                names = [s + "_ldr_" + d + ".csv" for s, d in zip(own, digits)]
         return names, idx, feats
     if vendor == "tofwerk":
         stamps, f = tofwerk_stamps(rng, n, tz)
+        k = rng.random()
+        if k < 0.03:  # month / day written with one digit: still a stamp time.strptime reads
+            def short(st):
+                y, m, rest = st.split(".", 2)
+                d, t = rest.split("-", 1)
+                return f"{y}.{int(m) if rng.random() < 0.7 else m}.{int(d) if rng.random() < 0.7 else d}-{t}"
+            short_stamps = [short(st) for st in stamps]
+            if len(set(short_stamps)) == n and short_stamps != stamps:
+                stamps, f = short_stamps, f + ["short-date-fields"]
+        elif k < 0.05:  # a stamp time.strptime rejects (the import raises), or a leap second (accepted, outside the property)
+            bad = rng.choice(["2021.02.30-10h10m10s", "2021.13.01-10h10m10s", "2021.00.10-10h10m10s", "2021.04.31-00h00m00s",
+                              "2021.01.01-24h00m00s", "2021.01.01-10h60m00s", "2021.01.01-10h10m62s", "021.01.01-10h10m10s",
+                              "2021.01-10h10m10s", "2021.001.01-10h10m10s", "2021.01.01.-10h10m10s", "0000.01.01-10h10m10s",
+                              "2021.06.30-23h59m60s", "2021.06.30-23h59m61s"])
+            if bad not in stamps:
+                stamps = list(stamps)
+                stamps[rng.randrange(n)] = bad
+                f = f + ["leap-second-stamp" if bad.endswith(("60s", "61s")) and "h59m" in bad else "invalid-stamp"]
         prefix = rng.choice(["IMG", "run1", "a", "IMG_x", "T0F"])
         suffix = rng.choice(["_AS", "", "_x.y", "_AS.csv"])
         return [f"{prefix}_{s}{suffix}" + case_mix(rng, ".csv") for s in stamps], stamps, f
